@@ -5,12 +5,16 @@ CLAIMS["C19"] = dict(
     text="(a) Every name of lengths 0,1,2,254,255,256,300 with every byte value at the first, second, middle and last position (thorough: two mutated positions) and every unit of lengths "
          "0,1,63,64,300 with every byte value at the first/last position, as NUL-terminated std::string, slice of a longer buffer with a valid and an invalid tail, and exact-size heap "
          "block under ASan, through the real Meter::Create* of the 12 instrument kinds (quick: full byte sweeps for 4 kinds, a representative core set for all 12); one measurement, a pull "
-         "MetricReader collects; valid <=> exactly one stream with exactly that name/unit/type and the default aggregation, invalid => no stream. The regex validator (used by this "
-         "build) is additionally compared with the hand-written variant compiled from the same source. (b) Every set of <= 2 views (thorough: larger alphabet, plus triples over a small "
+         "MetricReader collects; valid <=> exactly one stream with exactly that name/unit/type and the default aggregation, invalid => no stream; the same through the two synchronous "
+         "gauges in a second build of harness and SDK under ABI v2. The code of a build without working std::regex, compiled from the unchanged sources under other class names, is held "
+         "to the same reference: the hand-written validator on every sweep input, view selection (predicate.h) on a selector x instrument table. (b) Every set of <= 2 views (thorough: larger alphabet, plus triples over a small "
          "one) over {type} x {name: exact, pattern, '*', no match} x {unit} x {meter selector: wildcard, exact, name only, other version, other name, ...} x {view specs: identity, "
-         "rename+description+Sum, LastValue+attribute filter, Histogram+filter, Drop} against four instruments on two meters (one unversioned/schema-less): exported streams == streams "
-         "shaped by each matching view + default stream of each unmatched instrument, compared on name, description, unit, point kind, attribute keys. (c) Every ScopeConfigurator rule list of "
+         "rename+description+Sum, LastValue+attribute filter, Histogram+filter, Drop, Histogram with own boundaries / no min-max, rename onto another instrument's name} against seven "
+         "instruments (every instrument type of ABI v1) on two meters (one unversioned/schema-less): exported streams == streams shaped by each matching view + default stream of each "
+         "unmatched instrument, compared on name, description, unit, point kind, configured boundaries / min-max, attribute keys (quick: the first pair alphabet runs against four of the instruments). (c) Every ScopeConfigurator rule list of "
          "length <= 4 (thorough 5) over {name-equals x, name-equals y, version matcher, attribute matcher} x {enable, disable} x default, for tracer, meter and logger providers with four "
-         "scopes: exactly the scopes enabled by the first matching rule deliver their span / metric / log record. (d) Every ordered pair of identity requests (8 tracer/meter identities, 96 "
-         "(thorough 120) logger identities incl. logger name, defaulted library name and attributes) under three configurators: same object iff equal in all components.",
+         "scopes: exactly the scopes enabled by the first matching rule deliver their span / metric (every instrument kind against the short rule lists) / log records (three ways of "
+         "emitting); under ABI v2 also with scope attributes on tracers and meters. (d) Every ordered pair of identity requests (8 tracer/meter identities, 96 "
+         "(thorough 120) logger identities incl. logger name, defaulted library name and attributes; ABI v2 build: 40 tracer/meter identities incl. attributes given as nullptr / empty iterable / k=1 / k=2 / j=1) "
+         "under three configurators: same object iff equal in all components.",
     note=SEQ_NOTE)
